@@ -56,6 +56,9 @@ struct MasterSpec {
     /// k per axis: normalized coordinate k/d
     loc: Vec<i64>,
     sparse: bool,
+    /// Glyphs sources: a brace layer attached to the full master `.0` that names only the `.1` leading axes; the
+    /// other axes keep the associated master's values (`loc` is that intended location)
+    brace: Option<(usize, usize)>,
 }
 
 #[derive(Clone, Debug, PartialEq)]
@@ -97,6 +100,8 @@ struct Case {
     keep_direction: bool,
     /// written as a Glyphs 3 source (sparse masters = brace layers) instead of designspace + UFO
     glyphs_source: bool,
+    /// Glyphs 2 file format (brace coordinates in the layer name) instead of Glyphs 3
+    glyphs_v2: bool,
 }
 
 const AXES: [(&str, &str); 3] = [("wght", "Weight"), ("wdth", "Width"), ("opsz", "Optical")];
@@ -426,9 +431,9 @@ fn flat_draw(case: &Case, g: &GlyphSpec, mi: usize) -> GlyphSrc {
 }
 
 fn gen_case(rng: &mut Rng, id: usize, glyphs_source: bool) -> Case {
-    let naxes = match rng.below(10) {
-        0..=4 => 1,
-        5..=7 => 2,
+    let naxes = match (rng.below(10), glyphs_source) {
+        (0..=4, false) | (0..=2, true) => 1,
+        (5..=7, false) | (3..=7, true) => 2,
         _ => 3,
     };
     let layout = *rng.pick(&["on-axis", "corners", "intermediate", "mixed", "diagonal"]);
@@ -440,7 +445,8 @@ fn gen_case(rng: &mut Rng, id: usize, glyphs_source: bool) -> Case {
     let axes: Vec<AxisSpec> = (0..naxes)
         .map(|a| AxisSpec { tag: AXES[a].0, name: AXES[a].1, def: *rng.pick(&[0, 100, 400]), unit: *rng.pick(&[5, 10, 25, 50]), neg: rng.chance(1, 3) && !glyphs_source, pos: true })
         .collect();
-    let mut case = Case { id, d, axes, masters: vec![], glyphs: vec![], vertical: rng.chance(1, 4), layout: "", point_axis: false, keep_direction: false, glyphs_source };
+    let mut case = Case { id, d, axes, masters: vec![], glyphs: vec![], vertical: rng.chance(1, 4), layout: "", point_axis: false, keep_direction: false, glyphs_source, glyphs_v2: false };
+    case.glyphs_v2 = glyphs_source && rng.chance(1, 3);
     case.point_axis = rng.chance(1, 10) && !glyphs_source;
     case.keep_direction = rng.chance(1, 8);
     if glyphs_source {
@@ -523,6 +529,30 @@ fn gen_case(rng: &mut Rng, id: usize, glyphs_source: bool) -> Case {
             }
         }
     }
+    // Glyphs sources with two or more axes: intermediate masters that will be written as brace layers naming only the
+    // leading axis / axes, attached to the master at the end of a trailing axis (off-default on an unnamed axis)
+    if glyphs_source && naxes >= 2 && d >= 2 {
+        let mut extra: Vec<Vec<i64>> = Vec::new();
+        for a in 1..naxes {
+            let mut e = vec![0; naxes];
+            e[a] = d;
+            extra.push(e.clone());
+            if rng.chance(3, 4) {
+                let mut l = e.clone();
+                l[0] = rng.range(1, d - 1);
+                extra.push(l);
+            }
+            if a == 2 && rng.chance(1, 2) {
+                let mut l = e.clone();
+                l[0] = rng.range(1, d - 1);
+                l[1] = rng.range(1, d - 1);
+                extra.push(l);
+            }
+        }
+        let rest: Vec<Vec<i64>> = locs.drain(1..).collect();
+        locs.extend(extra);
+        locs.extend(rest);
+    }
     // now and then an axis whose default is its maximum: mirror it
     for a in 0..naxes {
         if !case.axes[a].neg && rng.chance(1, 7) {
@@ -549,7 +579,39 @@ fn gen_case(rng: &mut Rng, id: usize, glyphs_source: bool) -> Case {
         let is_end = l.iter().filter(|k| **k != 0).count() == 1 && l.iter().any(|k| k.abs() == d);
         let touches_end = l.iter().any(|k| k.abs() == d);
         let sparse = i > 0 && !is_end && rng.chance(1, 2) && !(glyphs_source && touches_end);
-        case.masters.push(MasterSpec { name: format!("M{i}"), loc: l.clone(), sparse });
+        case.masters.push(MasterSpec { name: format!("M{i}"), loc: l.clone(), sparse, brace: None });
+    }
+    // Glyphs sources: an intermediate master that agrees with a full master A on all axes after the first p, and is
+    // not at an axis end on the first p, becomes a brace layer of A with p coordinates
+    if glyphs_source && naxes >= 2 {
+        let n = case.masters.len();
+        for i in 1..n {
+            let l = case.masters[i].loc.clone();
+            let is_end = l.iter().filter(|k| **k != 0).count() == 1 && l.iter().any(|k| k.abs() == d);
+            if is_end {
+                continue;
+            }
+            let mut found = None;
+            'search: for p in 1..naxes {
+                if l[..p].iter().any(|k| k.abs() == d) || l[p..].iter().all(|k| *k == 0) {
+                    continue;
+                }
+                for a in 0..n {
+                    let al = &case.masters[a].loc;
+                    let a_end = al.iter().filter(|k| **k != 0).count() == 1 && al.iter().any(|k| k.abs() == d);
+                    if a != i && a_end && al[p..] == l[p..] && al[..p] != l[..p] {
+                        found = Some((a, p));
+                        break 'search;
+                    }
+                }
+            }
+            if let Some(f) = found {
+                if rng.chance(4, 5) {
+                    case.masters[i].sparse = true;
+                    case.masters[i].brace = Some(f);
+                }
+            }
+        }
     }
     // ---- glyphs ------------------------------------------------------------------------------------
     let full: Vec<usize> = (0..case.masters.len()).filter(|i| !case.masters[*i].sparse).collect();
@@ -562,7 +624,7 @@ fn gen_case(rng: &mut Rng, id: usize, glyphs_source: bool) -> Case {
         let kind = if gi == 0 { GKind::Line } else { rng.pick(&kinds).clone() };
         let mut ms = full.clone();
         for s in &sparse {
-            if rng.chance(1, 2) {
+            if rng.chance(if case.masters[*s].brace.is_some() { 3 } else { 2 }, 4) {
                 ms.push(*s);
             }
         }
@@ -785,28 +847,80 @@ fn glyphs_shapes(g: &GlyphSrc) -> String {
     s
 }
 
+
+/// Glyphs 2 spelling of a layer's outline and components
+fn glyphs_shapes_v2(g: &GlyphSrc) -> String {
+    let mut s = String::new();
+    if !g.components.is_empty() {
+        let cs: Vec<String> = g
+            .components
+            .iter()
+            .map(|(b, t)| format!("{{\nname = {};\ntransform = \"{{{}, {}, {}, {}, {}, {}}}\";\n}}", b, gnum(t[0]), gnum(t[1]), gnum(t[2]), gnum(t[3]), gnum(t[4]), gnum(t[5])))
+            .collect();
+        s.push_str(&format!("components = (\n{}\n);\n", cs.join(",\n")));
+    }
+    s
+}
+fn glyphs_paths_v2(g: &GlyphSrc) -> String {
+    let mut paths: Vec<String> = Vec::new();
+    for c in &g.contours {
+        let all_off = c.iter().all(|p| p.2 == Pt::Off);
+        let mut nodes: Vec<&(f64, f64, Pt)> = c.iter().collect();
+        if !all_off {
+            nodes.rotate_left(1);
+        }
+        let ns: Vec<String> = nodes
+            .iter()
+            .map(|(x, y, t)| {
+                let ty = match t {
+                    Pt::Line => "LINE",
+                    Pt::Curve => "CURVE",
+                    Pt::QCurve => "QCURVE",
+                    Pt::Off => "OFFCURVE",
+                };
+                format!("\"{} {} {}\"", gnum(*x), gnum(*y), ty)
+            })
+            .collect();
+        paths.push(format!("{{\nclosed = 1;\nnodes = (\n{}\n);\n}}", ns.join(",\n")));
+    }
+    if paths.is_empty() { String::new() } else { format!("paths = (\n{}\n);\n", paths.join(",\n")) }
+}
+
 /// `only`: Some(m) = the master m alone (its own static source)
 fn glyphs_text(case: &Case, only: Option<usize>) -> String {
-    let mut s = String::from("{\n.appVersion = \"3300\";\n.formatVersion = 3;\naxes = (\n");
-    let ax: Vec<String> = case.axes.iter().map(|a| format!("{{\nname = {};\ntag = {};\n}}", a.name, a.tag)).collect();
-    s.push_str(&ax.join(",\n"));
-    s.push_str("\n);\ncustomParameters = (\n{\nname = \"Variable Font Origin\";\nvalue = M0;\n}\n);\n");
+    let v2 = case.glyphs_v2;
+    let mut s = String::from("{\n.appVersion = \"3300\";\n");
+    if v2 {
+        let ax: Vec<String> = case.axes.iter().map(|a| format!("{{\nName = {};\nTag = {};\n}}", a.name, a.tag)).collect();
+        s.push_str(&format!("customParameters = (\n{{\nname = Axes;\nvalue = (\n{}\n);\n}},\n{{\nname = \"Variable Font Origin\";\nvalue = M0;\n}}\n);\n", ax.join(",\n")));
+    } else {
+        s.push_str(".formatVersion = 3;\naxes = (\n");
+        let ax: Vec<String> = case.axes.iter().map(|a| format!("{{\nname = {};\ntag = {};\n}}", a.name, a.tag)).collect();
+        s.push_str(&ax.join(",\n"));
+        s.push_str("\n);\ncustomParameters = (\n{\nname = \"Variable Font Origin\";\nvalue = M0;\n}\n);\n");
+    }
     s.push_str(&format!("familyName = \"C03g{}\";\nfontMaster = (\n", case.id));
     let values = |m: &MasterSpec| -> String { case.axes.iter().zip(&m.loc).map(|(a, k)| gnum(user(a, *k))).collect::<Vec<_>>().join(",\n") };
+    // an explicit ufo2ft filter list in the default master switches the Glyphs default "erase open corners"
+    // off: that filter rewrites each master on its own and can make compatible random polygons incompatible
+    let master_entry = |m: &MasterSpec, id: usize, first: bool| -> String {
+        if v2 {
+            let keys = ["weightValue", "widthValue", "customValue"];
+            let vals: Vec<String> = case.axes.iter().zip(&m.loc).enumerate().map(|(i, (a, k))| format!("{} = {};\n", keys[i], gnum(user(a, *k)))).collect();
+            format!("{{\ncustom = \"Master {}\";\nid = M{};\n{}{}}}", id, id, if first { FILTERS } else { "" }, vals.join(""))
+        } else {
+            format!("{{\naxesValues = (\n{}\n);\nid = M{};\nname = \"Master {}\";\n{}}}", values(m), id, id, if first { FILTERS } else { "" })
+        }
+    };
     let fm: Vec<String> = match only {
-        // an explicit ufo2ft filter list in the default master switches the Glyphs default "erase open corners"
-        // off: that filter rewrites each master on its own and can make compatible random polygons incompatible
-        Some(m) => vec![format!("{{\naxesValues = (\n{}\n);\nid = M0;\nname = Only;\n{}}}", values(&case.masters[m]), FILTERS)],
-        None => case
-            .masters
-            .iter()
-            .enumerate()
-            .filter(|(_, m)| !m.sparse)
-            .map(|(i, m)| format!("{{\naxesValues = (\n{}\n);\nid = M{};\nname = \"Master {}\";\n{}}}", values(m), i, i, if i == 0 { FILTERS } else { "" }))
-            .collect(),
+        Some(m) => vec![master_entry(&case.masters[m], 0, true)],
+        None => case.masters.iter().enumerate().filter(|(_, m)| !m.sparse).map(|(i, m)| master_entry(m, i, i == 0)).collect(),
     };
     s.push_str(&fm.join(",\n"));
     s.push_str("\n);\nglyphs = (\n");
+    let body = |d: &GlyphSrc| -> String {
+        if v2 { format!("{}{}", glyphs_shapes_v2(d), glyphs_paths_v2(d)) } else { glyphs_shapes(d) }
+    };
     let mut gl: Vec<String> = Vec::new();
     // bases first so that components resolve in any case
     for g in &case.glyphs {
@@ -827,7 +941,7 @@ fn glyphs_text(case: &Case, only: Option<usize>) -> String {
                     None => None,
                 };
                 if let Some(d) = d {
-                    layers.push(format!("{{\nlayerId = M0;\n{}width = {};\n}}", glyphs_shapes(d), gnum(d.advance)));
+                    layers.push(format!("{{\nlayerId = M0;\n{}width = {};\n}}", body(d), gnum(d.advance)));
                 }
             }
             None => {
@@ -835,12 +949,23 @@ fn glyphs_text(case: &Case, only: Option<usize>) -> String {
                     let ms = &case.masters[m];
                     let d = &g.draw[i];
                     if ms.sparse {
-                        layers.push(format!(
-                            "{{\nassociatedMasterId = M0;\nattr = {{\ncoordinates = (\n{}\n);\n}};\nlayerId = B{};\nname = \"brace {}\";\n{}width = {};\n}}",
-                            values(ms), m, m, glyphs_shapes(d), gnum(d.advance)
-                        ));
+                        // the coordinates the layer names: all axes on the default master, or only the leading ones
+                        // on the master whose values the other axes keep
+                        let (assoc, ncoords) = ms.brace.unwrap_or((0, case.axes.len()));
+                        let named: Vec<String> = case.axes.iter().zip(&ms.loc).take(ncoords).map(|(a, k)| gnum(user(a, *k))).collect();
+                        if v2 {
+                            layers.push(format!(
+                                "{{\nassociatedMasterId = M{};\n{}layerId = B{};\nname = \"{{{}}}\";\n{}width = {};\n}}",
+                                assoc, glyphs_shapes_v2(d), m, named.join(", "), glyphs_paths_v2(d), gnum(d.advance)
+                            ));
+                        } else {
+                            layers.push(format!(
+                                "{{\nassociatedMasterId = M{};\nattr = {{\ncoordinates = (\n{}\n);\n}};\nlayerId = B{};\nname = \"brace {}\";\n{}width = {};\n}}",
+                                assoc, named.join(",\n"), m, m, glyphs_shapes(d), gnum(d.advance)
+                            ));
+                        }
                     } else {
-                        layers.push(format!("{{\nlayerId = M{};\n{}width = {};\n}}", m, glyphs_shapes(d), gnum(d.advance)));
+                        layers.push(format!("{{\nlayerId = M{};\n{}width = {};\n}}", m, body(d), gnum(d.advance)));
                     }
                 }
             }
@@ -1389,9 +1514,9 @@ fn glyph_json(g: &GlyphSrc) -> Value {
 
 fn case_json(c: &Case) -> Value {
     json!({
-        "id": c.id, "d": c.d, "layout": c.layout, "vertical": c.vertical, "point_axis": c.point_axis, "keep_direction": c.keep_direction, "glyphs_source": c.glyphs_source,
+        "id": c.id, "d": c.d, "layout": c.layout, "vertical": c.vertical, "point_axis": c.point_axis, "keep_direction": c.keep_direction, "glyphs_source": c.glyphs_source, "glyphs_v2": c.glyphs_v2,
         "axes": c.axes.iter().map(|a| json!({"tag": a.tag, "default": a.def, "unit": a.unit, "neg": a.neg, "pos": a.pos})).collect::<Vec<_>>(),
-        "masters": c.masters.iter().map(|m| json!({"name": m.name, "loc": m.loc, "sparse": m.sparse})).collect::<Vec<_>>(),
+        "masters": c.masters.iter().map(|m| json!({"name": m.name, "loc": m.loc, "sparse": m.sparse, "brace_of_master_with_n_coordinates": m.brace})).collect::<Vec<_>>(),
         "glyphs": c.glyphs.iter().map(|g| json!({"name": g.name, "kind": format!("{:?}", g.kind), "style": g.style, "masters": g.masters,
             "vorigin": g.vorigin, "draw": g.draw.iter().map(glyph_json).collect::<Vec<_>>()})).collect::<Vec<_>>(),
     })
@@ -1558,11 +1683,17 @@ fn run_case(case: &Case, debug: bool) -> Out {
             Ok(irg) => {
                 let got: Vec<Option<usize>> = irg.sources().keys().map(|l| loc_index(l)).collect();
                 let exp: Vec<Option<usize>> = g.masters.iter().map(|m| Some(*m)).collect();
-                if !exp.iter().all(|e| got.contains(e)) {
-                    out.viol("glyph-sources-differ-from-designspace", format!("glyph {}: IR sources at masters {got:?}, the designspace defines it at {exp:?}", g.name), case, json!({"glyph": g.name}));
-                    continue;
-                }
-                if got.len() != exp.len() {
+                let describe = || -> String {
+                    let ir: Vec<String> = irg.sources().keys().map(|l| format!("{l:?}")).collect();
+                    let want: Vec<String> = g.masters.iter().map(|m| format!("{} {:?}/{}", case.masters[*m].name, case.masters[*m].loc, case.d)).collect();
+                    format!("glyph {}: IR sources at {} (masters {got:?}), the source defines it at {}", g.name, ir.join(", "), want.join(", "))
+                };
+                if !exp.iter().all(|e| got.contains(e)) || (got.len() != exp.len() && g.kind != GKind::Composite) {
+                    // a master of the glyph is filed at another location (or lost, or invented): reported here, and the
+                    // predicate below still instantiates at the intended locations
+                    out.viol("glyph-sources-differ-from-designspace", describe(), case, json!({"glyph": g.name}));
+                    derived_sources = true;
+                } else if got.len() != exp.len() {
                     // a decomposed composite also gets instances where only its components have masters: those are
                     // not drawings of this glyph, there is nothing to compare them with; the model comparison
                     // (which needs every source's point sequence) is skipped, the predicate is not
@@ -2023,7 +2154,8 @@ fn main() {
         *dist.entry(format!("vertical:{}", c.vertical)).or_default() += 1;
         *dist.entry(format!("point_axis:{}", c.point_axis)).or_default() += 1;
         *dist.entry(format!("keep_direction:{}", c.keep_direction)).or_default() += 1;
-        *dist.entry(format!("source:{}", if c.glyphs_source { "glyphs" } else { "designspace" })).or_default() += 1;
+        *dist.entry(format!("source:{}", if c.glyphs_v2 { "glyphs2" } else if c.glyphs_source { "glyphs3" } else { "designspace" })).or_default() += 1;
+        *dist.entry(format!("partial_brace_masters:{}", c.masters.iter().filter(|m| m.brace.is_some()).count())).or_default() += 1;
         let o = slots.remove(&c.id).unwrap();
         for (k, v) in o.stats {
             if k.starts_with("max_") {
